@@ -35,7 +35,7 @@ Outcome(c) ==
      ELSE IF got = "opaque" THEN "opq:" \o why
      ELSE "decided"
 
-Reasons == {"invalid", "nonascii", "utf8", "escape", "group", "count", "posix", "depth", "flagx"}
+Reasons == {"invalid", "nonascii", "utf8", "escape", "group", "count", "posix", "depth", "flagx", "long"}
 Kinds   == {"bad", "decided"} \cup {"inv:" \o r : r \in Reasons} \cup {"opq:" \o r : r \in Reasons}
 
 BlockIdx(k) == {j \in 1..Len(Cases) : j % NBlocks = k % NBlocks}
